@@ -388,4 +388,23 @@ theorem keyseed_eq_auth_is_collision (P : O4.Ntor.Prims) (exps id b x y : Bytes)
     O4.Consts.Ntor.tKey ≠ O4.Consts.Ntor.tMac :=
   ⟨h, by decide⟩
 
+/-! ## frames of one connection are useless on another: fresh ephemerals per connection
+
+`BoxAuth` is a hypothesis about ONE connection's link keys.  That frames recorded on connection
+`i` do not authenticate on connection `j` rests on the two connections having different
+`KEY_SEED`s: `secret_input` contains both ephemeral public keys `X` and `Y`
+(`ntor_keyseed_auth_shape`; `C08.keyseed_binding`: a different `X` or `Y` gives a different
+`KEY_SEED` or exhibits an explicit HMAC collision).  The client's `X` is only fresh per *args
+object* — the API allows dialling one parsed args object several times — so it is the server's
+per-connection ephemeral that carries the property.  The structural fact is regenerated from the
+Go source on every run (go/ast call sets, the same facts `C02.fresh_keys_structure` uses); the
+harness family `xreplay` (one factory, re-dialled args, recorded frames injected at the same
+position) is the matching S oracle. -/
+
+/-- **the server draws its ntor ephemeral in every `WrapConn`, never once per factory** -/
+theorem server_ephemeral_per_connection :
+    "ntor.NewKeypair" ∈ O4.Facts.Obfs4.obfs4ServerFactory_WrapConn_calls ∧
+    "ntor.NewKeypair" ∉ O4.Facts.Obfs4.Transport_ServerFactory_calls ∧
+    "ntor.NewKeypair" ∈ O4.Facts.Obfs4.obfs4ClientFactory_ParseArgs_calls := by decide
+
 end C05
